@@ -397,7 +397,9 @@ def static_recursion(repo=None):
 
 # ---------------------------------------------------------------- instance families (pure python: used in workers)
 def fam_instance(family, n):
-    """(zs, edges) of the instance; n is the size parameter of the family (see FAMILY_DOC)."""
+    """(zs, edges) of the instance; n is the size parameter of the family (see FAMILY_DOC).
+    A family name ending in "+lab" is the same skeleton with isotope / radical labels (fam_labels)."""
+    family = family.split("+")[0]
     if family == "chain":
         k, e = gens.path(n)
         return [6] * k, e
@@ -467,8 +469,20 @@ def peptide(units):
     return zs, e
 
 
-def _atoms_bonds(zs, edges):
+def fam_labels(family, n_atoms):
+    """(mass, rad) label dictionaries for a "+lab" family: every 3rd atom an isotope, every 7th a radical"""
+    if not family.endswith("+lab"):
+        return {}, {}
+    return ({i: 2 + (i % 5) for i in range(0, n_atoms, 3)}, {i: 2 for i in range(0, n_atoms, 7)})
+
+
+def _atoms_bonds(zs, edges, family=""):
     atoms = {i: {"element_symbol": impl.SYM[z], "atomic_number": z, "partition": 0} for i, z in enumerate(zs)}
+    mass, rad = fam_labels(family, len(zs))
+    for i, v in mass.items():
+        atoms[i]["mass"] = v
+    for i, v in rad.items():
+        atoms[i]["rad"] = v
     return atoms, {tuple(e): {} for e in edges}
 
 
@@ -488,7 +502,7 @@ def c15_worker(spec):
         stage = "build"
         zs, edges = fam_instance(family, n)
         out["atoms"], out["bonds"] = len(zs), len(edges)
-        g = graph_from_molecule(*_atoms_bonds(zs, edges))
+        g = graph_from_molecule(*_atoms_bonds(zs, edges, family))
         for stage, fn in (("canonicalize", lambda: canonicalize_molecule(g)), ("serialize", lambda: serialize_molecule(c)),
                           ("parse", lambda: graph_from_tucan(s))):
             t = time.time()
@@ -571,6 +585,9 @@ def _big_instances(tier, rng):
     L = [("chain", 1100, True), ("chain", 2200, False), ("ring1", 2400, False), ("comb", 1200, True), ("ladder", 1200, True),
          ("peptide", 1203, True), ("isolated", 3000, True), ("frag3", 1000, True), ("complete", 40, True), ("star", 500, True),
          ("bintree", 9, True),
+         # the same shapes carrying isotope / radical labels on some atoms
+         ("isolated+lab", 1500, True), ("isolated+lab", 1, True), ("isolated+lab", 2, True), ("frag3+lab", 300, True), ("chain+lab", 600, True),
+         ("star+lab", 200, True), ("complete+lab", 20, True), ("ring1+lab", 300, True),
          # sizes drawn per seed
          ("chain", rng.randint(1000, 2100), False), ("ring1", rng.randint(1000, 2000), False), ("peptide", rng.randint(600, 2400), False),
          ("comb", rng.randint(1300, 2400), False), ("ladder", rng.randint(1300, 2400), False)]
@@ -591,7 +608,8 @@ def _moderate_instances(tier, rng):
          ("ring1", 100), ("comb", 40), ("comb", 80), ("ladder", 40), ("ladder", 80), ("peptide", 43), ("peptide", 83),
          ("isolated", 1), ("isolated", 300), ("frag3", 100), ("complete", 40), ("complete", 2), ("star", 200), ("bintree", 5), ("bintree", 6),
          ("chain", rng.randint(20, 70)), ("ring1", rng.randint(20, 70)), ("comb", rng.randint(20, 70)), ("ladder", rng.randint(20, 70)),
-         ("peptide", rng.randint(13, 70))]
+         ("peptide", rng.randint(13, 70)),
+         ("isolated+lab", 1), ("isolated+lab", 30), ("chain+lab", 40), ("frag3+lab", 10), ("star+lab", 12), ("complete+lab", 7), ("comb+lab", 30)]
     if not quick:
         L += [("chain", 140), ("ring1", 140), ("comb", 120), ("ladder", 120), ("peptide", 123), ("bintree", 7), ("complete", 60),
               ("isolated", 400), ("frag3", 133), ("star", 399)] + [(f, rng.randint(10, 90)) for f in ("chain", "ring1", "comb", "ladder", "peptide") for _ in range(3)]
@@ -625,7 +643,8 @@ def k11_one(run, model, family, n):
     import tucan.canonicalization as C
     case = {"family": family, "n": n}
     zs, edges = fam_instance(family, n)
-    am = AM(zs, edges, family="k11:" + family)
+    _m, _r = fam_labels(family, len(zs))
+    am = AM(zs, edges, _m, _r, family="k11:" + family)
     g = impl.graph_of(am, lambda i: {TRACER: i})
     calls = [0]
     orig = C.partition_molecule_by_attribute
@@ -737,7 +756,7 @@ def c15(run, model):
         if res.get("molfile_counts_ok") is False:
             run.notes.append("molfile round trip of %s n=%d changed the atom/bond counts" % (sp["family"], sp["n"]))
         atoms = res.get("atoms", 0)
-        pred = laws[sp["family"]](atoms)
+        pred = laws[sp["family"].split("+")[0]](atoms)
         rounds = res.get("rounds")
         if rounds is not None and abs(rounds - pred) > max(3, rounds // 100):     # the law only selects sizes; tiny counts (trees) are not linear
             run.notes.append("rounds of %s (%d atoms): measured %d, linear law from the model's small instances %d" % (sp["family"], atoms, rounds, pred))
@@ -892,6 +911,23 @@ def build_workload(run, model):
     texts = {f: open(f).read() for f in chosen + v2}
     for f in chosen + v2:
         add("read", text=texts[f], src=os.path.relpath(f, common.REPO))
+    # rendered molfiles: small ionic / isotopic molecules whose atoms share charge codes and D/T symbols, so that
+    # state leaking from one read into a later one (or into another thread) changes a result
+    import text_checks as TC
+    ion_sets = [[("D", 1, 0, 0), ("N", 1, 0, 0), ("H", 0, 0, 0)], [("Na", 1, 0, 0), ("D", -1, 0, 0), ("Cl", -1, 0, 0)],
+                [("T", 0, 2, 0), ("C", 0, 2, 0), ("O", -1, 0, 0)], [("N", 1, 0, 0), ("H", 0, 0, 0), ("H", 0, 0, 0), ("H", 0, 0, 0), ("H", 0, 0, 0)],
+                [("Cl", -1, 0, 0), ("Na", 1, 0, 0)], [("C", 0, 2, 13), ("H", 0, 0, 0), ("D", 1, 0, 0)], [("O", -2, 0, 0), ("T", 1, 0, 0), ("D", 1, 0, 0)],
+                [("Fe", 3, 0, 0), ("Cl", -1, 0, 0), ("Cl", -1, 0, 0), ("D", -1, 0, 0)]]
+    for k, atoms_ in enumerate(ion_sets):
+        atoms = [[sym, chg, rad, mass, "%d.0000" % i, "0.0000", "0.0000"] for i, (sym, chg, rad, mass) in enumerate(atoms_)]
+        bonds = [[1, 0, j] for j in range(1, len(atoms))] if k % 2 == 0 else []
+        mm = TC.MM(atoms, bonds, [], "c14:ions")
+        for mode in ("codes", "lines"):
+            try:
+                add("read", text=TC.render2000(mm, rng, charge_mode=mode), src="rendered-v2000:%d:%s" % (k, mode))
+            except Exception as e:
+                run.notes.append("c14 workload: render2000 failed (%s)" % type(e).__name__)
+        add("read", text=TC.render3000(mm, rng), src="rendered-v3000:%d" % k)
     # molecules
     stream = [am for am in gens.standard_stream(rng, "quick") if am.n() <= 40]
     mols = rng.sample(stream, 34)
